@@ -116,3 +116,19 @@ def contexts(thorough=False):
             for t in itertools.product(alpha, repeat=k):
                 out.append((name, mode, tmpl.format(' '.join(t))))
     return out
+
+
+def single_edits(cases, kinds=('del', 'dup', 'swap')):
+    """every single-token deletion, duplication and adjacent swap of every case (exhaustive)"""
+    out = []
+    for m, text in cases:
+        toks = TOKRE.findall(text)
+        idx = [i for i, t in enumerate(toks) if not t.isspace()]
+        for i in idx:
+            if 'del' in kinds: out.append((m, ''.join(toks[:i] + toks[i + 1:])))
+            if 'dup' in kinds: out.append((m, ''.join(toks[:i] + [toks[i], ' ', toks[i]] + toks[i + 1:])))
+        if 'swap' in kinds:
+            for a, b in zip(idx, idx[1:]):
+                t2 = list(toks); t2[a], t2[b] = t2[b], t2[a]
+                out.append((m, ''.join(t2)))
+    return out
